@@ -324,6 +324,12 @@ func (its *PushPullHandler) processSubscribeOrCreate(code pushPullCase) errors.O
 			return its.createDatatype()
 		case caseAllMatchedNotSubscribed:
 			return its.subscribeDatatype()
+		case caseAllMatchedSubscribed:
+			// a repeated request of a client that was subscribed to the existing datatype (its answer got lost):
+			// it still carries the DUID and the operations it made up for a datatype of its own
+			if its.DUID != its.datatypeDoc.DUID {
+				return its.subscribeDatatype()
+			}
 		}
 	} else if its.gotOption.HasSubscribeBit() {
 		switch code {
